@@ -310,5 +310,8 @@ def run(R, tier):
     for ty, d in sorted(per.items()):
         R.check(not d["bad"], "R14.7", "channel-spec:%s" % ty, "wrong dimension count -> command error, unrepresentable number -> execution error (%d refused specs)" % d["n"], "; ".join(d["bad"][:3]), where=d["body"].span)
     R.floor("R14.7", "ChannelSpec conversions", len(per), 6)
+    # ---- R14.8 malformed messages end to end: whichever layer refuses them, the error is in the command-error class ----------------
+    from . import msgtable as MT
+    MT.check(R, "R14.8", "corrupt", tier, "single-point corruptions of well-formed messages (misplaced separators, data glued to a header, over-long elements, unterminated / truncated data, non-ASCII bytes) run through Node::run: the error returned and handed to the hook lies in -100..-199", 90)
     R.trust("SCPI-99 error list as transcribed in oracle/errors.json")
     R.assume("user handlers may return any Error; only errors constructed by the library are classified (R14.5)")
